@@ -6,6 +6,7 @@
 import Nlmodel.Model.Value
 import Nlmodel.Proofs.Lemmas.FloatRound
 import Nlmodel.Proofs.Lemmas.FloatRem
+import Nlmodel.Proofs.Lemmas.Utf8All
 namespace Nl
 namespace C06
 
@@ -298,6 +299,18 @@ example : binopCore .div (.int 1) (.int 0) = .error .type := by
   simp [binopCore, View.ty, BinOp.isArith, intArith]
 example : binopCore .mod (.int (-7)) (.int 2) = .ok (.int (-1)) := by
   simp [binopCore, View.ty, BinOp.isArith, intArith, inRange, MAX_INT, MIN_INT]
+
+/-! ### strings: the implementation compares BYTES (`str` ordering in Rust), the model compares code points -/
+
+/-- UTF-8 preserves order: bytewise lexicographic `<` on the encodings is the model's lexicographic order by code
+    point, for all texts -/
+theorem C06_string_order_on_bytes (a b : Text) : Utf8.byteLt (Utf8.encode a) (Utf8.encode b) = textLt a b := Utf8.U6 a b
+
+/-- all six comparison operators of the model on two texts are what the byte-level `<` and `==` give -/
+theorem C06_string_comparisons_on_bytes (op : BinOp) (x y : Text) (h : op.isArith = false) (h' : op ≠ .and ∧ op ≠ .or) :
+    binopCore op (.str x) (.str y) =
+      .ok (.bool (cmpBy op (Utf8.byteLt (Utf8.encode x) (Utf8.encode y)) (Utf8.byteEq (Utf8.encode x) (Utf8.encode y)))) :=
+  Utf8.binopCore_str_bytes op x y h h'
 
 end C06
 end Nl
